@@ -345,7 +345,28 @@ def _bind(target, value, local):
         raise Unknown("bind")
 
 
+def _default_env(e):
+    """module environment of the module that owns node ``e`` (found through the parent links), so that named module
+    constants fold without the caller passing an env"""
+    cur = e
+    for _ in range(200):
+        p = getattr(cur, "_parent", None)
+        if p is None:
+            break
+        cur = p
+    mod = getattr(cur, "_mod", None)
+    if mod is None or getattr(mod, "repo", None) is None:
+        return None
+    env = getattr(mod, "_default_env", None)
+    if env is None:
+        env = Env(mod.repo, mod, {})
+        mod._default_env = env
+    return env
+
+
 def try_fold(e, env=None, default=None):
+    if env is None and isinstance(e, ast.AST):
+        env = _default_env(e)
     try:
         return fold(e, env)
     except Unknown:
@@ -422,3 +443,34 @@ def fold_module_sequence(repo, mod, name):
     if name not in local:
         raise Unknown(name)
     return local[name]
+
+
+def cnorm(node, env=None):
+    """Normalised text like core.norm, with every sub-expression that folds to an int / str / bytes constant through the
+    module environment (named module constants, arithmetic on them) replaced by the literal: `data[:_headAdjOffset]` and
+    `data[:8]` read the same."""
+    import copy
+    from .core import norm
+
+    if node is None or isinstance(node, str):
+        return norm(node)
+    if env is None:
+        env = _default_env(node)
+
+    class T(ast.NodeTransformer):
+        def generic_visit(self, n):
+            if isinstance(n, ast.expr) and not isinstance(n, (ast.Constant, ast.Starred)) and isinstance(n, (ast.Name, ast.Attribute, ast.BinOp, ast.UnaryOp)):
+                if not (isinstance(n, ast.Name) and isinstance(n.ctx, ast.Store)) and not (isinstance(n, ast.Attribute) and isinstance(n.ctx, ast.Store)):
+                    try:
+                        v = fold(n, env)
+                        if isinstance(v, (int, str, bytes)) and not isinstance(v, bool):
+                            return ast.copy_location(ast.Constant(value=v), n)
+                    except (Unknown, RecursionError, Exception):
+                        pass
+            return super().generic_visit(n)
+
+    try:
+        clone = ast.parse(norm(node), mode="eval").body if isinstance(node, ast.expr) else ast.parse(norm(node))
+    except SyntaxError:
+        return norm(node)
+    return norm(T().visit(clone))
